@@ -61,7 +61,7 @@ def parseVal (s : String) : Option CVal :=
     | 'B' => if r = "1" then some (.bool true) else if r = "0" then some (.bool false) else none
     | 'I' => r.toInt?.map .int
     | 'F' => match r.splitOn ":" with
-      | [t, h] => do let t ← parseTag t; let b ← parseHex h; pure (mkFlt t b)
+      | [t, h] => do let t ← parseTag t; let b ← parseHex h; pure (canonVal (mkFlt t b))
       | _ => none
     | 'C' => match r.splitOn ":" with
       | [t, h, g] => do let t ← parseTag t; let a ← parseHex h; let b ← parseHex g
